@@ -134,6 +134,9 @@ func (c *cursorManager) SetCursor(ctx context.Context, streamName, cursorID stri
 		Stream:    cursorsStream,
 		Partition: cursorsPartitionID,
 		AckPolicy: client.AckPolicy_ALL,
+		// Internal publishes are unconditional: waive the expected offset
+		// check in case concurrency control is enabled for all streams.
+		ExpectedOffset: -1,
 	})
 	if err != nil {
 		return status.New(codes.Internal, err.Error())
